@@ -178,6 +178,19 @@ CHECKS['C08'] = dict(
     technique='symbolic execution of the Python source + formal differentiation + Z3 per path',
 )
 
+CHECKS['C07'] = dict(
+    level='model_checking',
+    text='Safety clauses by havoc + induction on the real solvers: symbolic execution of Arm.IK / constrainedIK / IKinSpace / '
+         'IKinSpaceConstrained with the Newton update replaced by an ARBITRARY vector, arbitrary start, symbolic UNEQUAL '
+         'tolerances, arbitrary goal pose, restarts with arbitrary draws: on every path, reported success implies the '
+         'orientation / position error norms of the returned joints are within the configured orientation / position '
+         'tolerances, the limit-respecting answer is inside the limits and the stored state is that answer; failure leaves '
+         'reported tool pose = pose of the stored joints. The local-convergence clause is not encodable (concrete sampling '
+         'of the full Newton iteration only, as are reach/unreachable goals and stationary moves).',
+    design='5/C07',
+    technique='symbolic execution of the Python source with havoc\'d Newton update (memoryless-loop induction) + Z3 per path',
+)
+
 NOT_APPLICABLE = {
 }
 
